@@ -24,6 +24,24 @@ SCRIPTS = {
     (S.CANCEL, 1, 1), (S.NATIVECANCEL, 1), (S.RUNWAKE, 1), (S.RUNWAKE, 2), (S.FINISH, 2, 0), (S.RUNTASKDONE, 2), (S.DROP, 1),
     (S.GEXIT, 1, 1), (S.RUNSTEP, 1)]),
 }
+SCRIPTS[("C02", "failure_in_shielded_group_sibling_in_nested_shield")] = ("a child fails in a group whose own scope is shielded while the sibling sits in a nested shield; the sibling must be cancelled once it leaves the nested shield", [
+    (S.NEWROOT,), (S.GNEW, 1), (S.GENTER, 1, 1), (S.SETSHIELD, 1, 1, 1), (S.SPAWN, 1, 1), (S.SPAWN, 1, 1), (S.RUNSTEP, 2), (S.RUNSTEP, 3),
+    (S.NEWSCOPE, 3, -1, 1), (S.ENTER, 3, 4), (S.SLEEP, 3, -1), (S.HOLD, 2, 7), (S.FINISH, 2, 0), (S.RUNTASKDONE, 2),
+    (S.RUNDELIVER, 1), (S.RUNWAKE, 1), (S.EXTCANCEL, 4), (S.RUNWAKE, 3), (S.EXIT, 3, 4, 0), (S.SLEEP, 3, 3), (S.RUNDELIVER, 1), (S.RUNWAKE, 3)])
+SCRIPTS[("C03", "failure_in_shielded_group_sibling_in_nested_shield")] = SCRIPTS[("C02", "failure_in_shielded_group_sibling_in_nested_shield")]
+SCRIPTS[("C02", "failure_in_group_behind_shield_inside_cancelled_scope")] = ("a task group opened inside a shield inside an already cancelled scope: a failing child must still cancel its group", [
+    (S.NEWROOT,), (S.NEWSCOPE, 1, -1, 0), (S.ENTER, 1, 1), (S.NEWSCOPE, 1, -1, 1), (S.ENTER, 1, 2), (S.CANCEL, 1, 1),
+    (S.GNEW, 1), (S.GENTER, 1, 1), (S.SPAWN, 1, 1), (S.SPAWN, 1, 1), (S.RUNSTEP, 2), (S.RUNSTEP, 3), (S.SLEEP, 3, -1),
+    (S.HOLD, 2, 7), (S.FINISH, 2, 0), (S.RUNTASKDONE, 2), (S.RUNDELIVER, 3), (S.RUNWAKE, 3)])
+SCRIPTS[("C04", "failure_in_group_behind_shield_inside_cancelled_scope")] = SCRIPTS[("C02", "failure_in_group_behind_shield_inside_cancelled_scope")]
+SCRIPTS[("C01", "spawn_between_last_task_done_and_host_wakeup")] = ("the last child's done-callback has woken the host, but before the host runs another task spawns into the still active group: the host must go on waiting", [
+    (S.NEWROOT,), (S.GNEW, 1), (S.GENTER, 1, 1), (S.SPAWN, 1, 1), (S.RUNSTEP, 2), (S.NEWROOT,), (S.GEXIT, 1, 1), (S.FINISH, 2, 3),
+    (S.RUNTASKDONE, 2), (S.SPAWN, 3, 1), (S.RUNWAKE, 1), (S.RUNSTEP, 4), (S.YIELD, 4), (S.RUNSTEP, 4), (S.FINISH, 4, 5), (S.RUNTASKDONE, 4),
+    (S.RUNWAKE, 1)])
+SCRIPTS[("C01", "start_between_last_task_done_and_host_wakeup")] = ("same window, the late task is started with start()", [
+    (S.NEWROOT,), (S.GNEW, 1), (S.GENTER, 1, 1), (S.SPAWN, 1, 1), (S.RUNSTEP, 2), (S.NEWROOT,), (S.GEXIT, 1, 1), (S.HOLD, 2, 4), (S.FINISH, 2, 0),
+    (S.RUNTASKDONE, 2), (S.START, 3, 1), (S.RUNWAKE, 1), (S.RUNSTEP, 4), (S.RUNDELIVER, 1), (S.RUNWAKE, 4), (S.FINISH, 4, 0), (S.RUNTASKDONE, 4),
+    (S.RUNWAKE, 3), (S.RUNWAKE, 1)])
 SCRIPTS[("C07", "f2_started_child_error_after_starter_cancelled")] = SCRIPTS[("C02", "f2_started_child_error_after_starter_cancelled")]
 
 def main():
